@@ -85,7 +85,10 @@ class TdlChannelProfile:
 
         aux = (np.sum(self._tap_powers_linear * self._tap_delays**2) /
                np.sum(self._tap_powers_linear))
-        self._rms_delay_spread = math.sqrt(aux - self._mean_excess_delay**2)
+        # For a profile whose taps all share one delay the difference below is
+        # zero up to rounding and can come out slightly negative.
+        self._rms_delay_spread = math.sqrt(
+            max(aux - self._mean_excess_delay**2, 0.0))
 
         # Sampling interval when the channel profile is discretized. You
         # can call the
